@@ -121,14 +121,14 @@ theorem andThen_device_ne_ret {σ σ' : S} {g g' : State → State} {F : S → S
 /-- the statements without nested blocks never end with `return` -/
 theorem leaf_not_ret (f : Nat) (st : Stmt) (hst : FragStmt V st) (σ σ' : S)
     (h : execStmt (f + 1) st σ = (.ret, σ')) :
-    (∃ c t e, st = .ite c t e) ∨ (∃ hd b, st = .repeat_ hd b) ∨ (∃ k ops, st = .action k ops) ∨
+    (∃ c t e, st = .ite c t e) ∨ (∃ hd b, st = .repeat_ hd b) ∨ (∃ k w ops, st = .action k w ops) ∨
     (∃ v, st = .ret v) ∨ (∃ g ps as, st = .call g ps as) := by
   have hrv : ∀ {v : Rv} {o}, evalRv f v σ = .error o → o ≠ .ret :=
     fun he => (evalRvC_error he).2.2
   cases st with
   | ite c t e => exact Or.inl ⟨c, t, e, rfl⟩
   | repeat_ hd b => exact Or.inr (Or.inl ⟨hd, b, rfl⟩)
-  | action k ops => exact Or.inr (Or.inr (Or.inl ⟨k, ops, rfl⟩))
+  | action k w ops => exact Or.inr (Or.inr (Or.inl ⟨k, w, ops, rfl⟩))
   | ret v => exact Or.inr (Or.inr (Or.inr (Or.inl ⟨v, rfl⟩)))
   | call g ps as => exact Or.inr (Or.inr (Or.inr (Or.inr ⟨g, ps, as, rfl⟩)))
   | defRoutine _ _ _ => exact absurd hst (by simp [FragStmt])
@@ -196,13 +196,16 @@ theorem leaf_not_ret (f : Nat) (st : Stmt) (hst : FragStmt V st) (σ σ' : S)
   | brk => exfalso; simp [execStmt] at h
   | defMacro n v => exfalso; simp [execStmt] at h
   | timeAt ps => exfalso; cases ps <;> simp [execStmt] at h
-  | setDefault =>
+  | setDefault w =>
     exfalso
-    simp only [execStmt] at h
-    have h' : andThen (σ.device fun vm => execInstr default vm .wait)
-        (fun s2 => (s2.setReg .operand (.operand .default)).device State.doColor) = (.ret, σ') := by
-      rw [← andThen_eq]; exact h
-    exact andThen_device_ne_ret h'
+    cases w
+    · simp only [execStmt, Bool.false_eq_true, ↓reduceIte] at h
+      exact device_ne_ret h
+    · simp only [execStmt, ↓reduceIte] at h
+      have h' : andThen (σ.device fun vm => execInstr default vm .wait)
+          (fun s2 => (s2.setReg .operand (.operand .default)).device State.doColor) = (.ret, σ') := by
+        rw [← andThen_eq]; exact h
+      exact andThen_device_ne_ret h'
   | actAll k =>
     exfalso
     simp only [execStmt] at h
@@ -951,7 +954,7 @@ theorem stmts_ret_step (f : Nat) (ihRv : RvToGoal V img K f) (ihBR : BlockRet V 
     (hK : K.ret = some (ret, rest, evc)) :
     StmtsRet V img K (f + 1) := by
   intro st hst σ σ' s pc exit stk sim hpc hc h
-  rcases leaf_not_ret f st hst σ σ' h with ⟨c, t, e, rfl⟩ | ⟨hd, b, rfl⟩ | ⟨k, ops, rfl⟩ | ⟨v, rfl⟩ |
+  rcases leaf_not_ret f st hst σ σ' h with ⟨c, t, e, rfl⟩ | ⟨hd, b, rfl⟩ | ⟨k, w, ops, rfl⟩ | ⟨v, rfl⟩ |
     ⟨g, ps, as, rfl⟩
   · -- if
     cases e with
@@ -1004,24 +1007,37 @@ theorem stmts_ret_step (f : Nat) (ihRv : RvToGoal V img K f) (ihBR : BlockRet V 
     simp only [execStmt] at h
     exact ihL hd b hst.1 hst.2 σ σ' s pc exit stk sim hpc hc h
   · -- set / on / off
-    simp only [execStmt] at h
-    have h' : andThen ((powerSet k σ).device fun vm => execInstr default vm .wait)
-        (fun s2 => execOperands f k ops s2) = (.ret, σ') := by
-      rw [← andThen_eq]
-      cases k <;> exact h
-    rcases andThen_cases h' with ⟨σ2, hw, hrest⟩ | ⟨hw, _⟩
-    · have hc' : CodeAt img pc (powerCode k ++ [Instr.wait] ++
-          resolve (genOperands k ops) (pc + ((powerCode k).length + 1)) exit) := by
+    cases w
+    · -- inside a matrix block: no `WAIT`
+      simp only [execStmt, Bool.false_eq_true, ↓reduceIte] at h
+      have hrest : execOperands f k ops (powerSet k σ) = (.ret, σ') := by
+        cases k <;> exact h
+      have hc' : CodeAt img pc (powerCode k ++
+          resolve (genOperands k ops) (pc + (powerCode k).length) exit) := by
         have := hc
         simp only [genStmt, resolve_append, resolve_ins, ins_length, List.length_append, List.length_cons,
-          List.length_nil] at this
+          List.length_nil, Bool.false_eq_true, ↓reduceIte, List.append_nil, Nat.add_zero] at this
         cases k <;> exact this
-      refine (exec_powerSet k sim hpc hc'.left.left).trans fun t ht => ?_
-      refine (exec_wait ht.2 ht.1 hc'.left.right.head hw).trans fun t2 ht2 => ?_
-      have hcr := hc'.right
-      simp only [List.length_append, List.length_cons, List.length_nil] at hcr
-      exact ihOs k ops hst σ2 σ' t2 _ exit stk ht2.2 (by rw [ht2.1]; congr 1) hcr hrest
-    · exact (device_ne_ret hw).elim
+      refine (exec_powerSet k sim hpc hc'.left).trans fun t ht => ?_
+      exact ihOs k ops hst _ σ' t _ exit stk ht.2 ht.1 hc'.right hrest
+    · simp only [execStmt, ↓reduceIte] at h
+      have h' : andThen ((powerSet k σ).device fun vm => execInstr default vm .wait)
+          (fun s2 => execOperands f k ops s2) = (.ret, σ') := by
+        rw [← andThen_eq]
+        cases k <;> exact h
+      rcases andThen_cases h' with ⟨σ2, hw, hrest⟩ | ⟨hw, _⟩
+      · have hc' : CodeAt img pc (powerCode k ++ [Instr.wait] ++
+            resolve (genOperands k ops) (pc + ((powerCode k).length + 1)) exit) := by
+          have := hc
+          simp only [genStmt, resolve_append, resolve_ins, ins_length, List.length_append, List.length_cons,
+            List.length_nil, ↓reduceIte] at this
+          cases k <;> exact this
+        refine (exec_powerSet k sim hpc hc'.left.left).trans fun t ht => ?_
+        refine (exec_wait ht.2 ht.1 hc'.left.right.head hw).trans fun t2 ht2 => ?_
+        have hcr := hc'.right
+        simp only [List.length_append, List.length_cons, List.length_nil] at hcr
+        exact ihOs k ops hst σ2 σ' t2 _ exit stk ht2.2 (by rw [ht2.1]; congr 1) hcr hrest
+      · exact (device_ne_ret hw).elim
   · -- return
     exact stmt_ret f ihRv v hst ret rest evc hK σ σ' s pc exit stk sim hpc hc h
   · exact (call_not_ret (f + 1) g ps as σ σ' h).elim
